@@ -7,7 +7,7 @@
 EXTENDS Loss, TLC
 
 CONSTANTS Sides, UseSp, MaxPk, MaxTot, Steps, Delays, Sizes, DgSizes, MADs, MaxNow, MaxRanges,
-          MaxAcks, MaxTicks, MaxDg, Fx
+          MaxAcks, MaxTicks, MaxDg, Kinds, Fx
 
 VARIABLES s, a
 vars == <<s, a>>
@@ -23,11 +23,11 @@ Times(x) == {t \in ({x.now + d : d \in Steps} \cup (IF x.timer # None THEN {x.ti
                t > x.now /\ t <= MaxNow}
 
 Tick == /\ ~s.ack.on /\ s.op \notin {"tick", "confirm"} /\ a.ticks < MaxTicks
-        /\ \E t \in Times(s) : s' = [Mark(s, "tick", None) EXCEPT !.now = t]
+        /\ \E t \in Times(s) : s' = [Tag(s, "tick", None) EXCEPT !.now = t]
         /\ a' = [a EXCEPT !.ticks = @ + 1]
 
 DoSend == /\ s.op # "confirm" /\ ~AtLimit(s) /\ Tot(s) < MaxTot
-          /\ \E sp \in Live(s), k \in {"ae", "pad", "ack"}, z \in Sizes :
+          /\ \E sp \in Live(s), k \in Kinds, z \in Sizes :
                /\ Len(s.pk[sp]) < MaxPk /\ CanSend(s, s.now, sp)
                /\ s' = Send(s, s.now, sp, k = "ae", k # "ack", z, Fx)
           /\ a' = a
